@@ -77,9 +77,11 @@ def check(tier):
             n = cfg[k]; k += 1
             for _ in range(n):
                 nv += 1; nb += cfg[k + 2]; k += 3
-        width = ng + nv + nb + 3
+        width = ng + nv + nb + 4
         first = next((i for i in range(min(len(it), len(mt))) if it[i] != mt[i]), None)
         if first is not None and width > 0 and first % width == width - 1:
+            violations.append((path, "the periodic (INTERVAL 10 ms) task ran %s times after operation %d where the model of a restarted = freshly built runtime runs it %s times (last_run must be re-created at the restarted clock)" % (it[first], first // width + 1, mt[first]), False))
+        elif first is not None and width > 0 and first % width == width - 2:
             violations.append((path, "the event (SINGLE) task ran %s times after operation %d where the model of a restarted = freshly built runtime runs it %s times (task state must be re-created by a restart)" % (it[first], first // width + 1, mt[first]), False))
         else:
             violations.append((path, "model and implementation disagree; the judge accepts the observed history", True))
